@@ -132,6 +132,7 @@ public:
   // ---- Modifiers ----
   void clear();
   iterator erase(iterator, iterator);
+  void clone_schema(const dataframe &);
 
   // ---- Convenience ----
   std::size_t read(const std::filesystem::path &);
